@@ -104,7 +104,7 @@ theorem sched_terminates (h : Hyp cfg rank) (hs : StartOK cfg (den cfg P rank) s
     (choices : List Nat) (hlen : st0.dependencies.length < choices.length)
     (s' : Sys α) (o : Outcome) (hrun : mainLoop cfg P choices (sys0 st0) = .ok (s', o)) : o ≠ .starved := by
   rcases mainLoop_spec P (den_fixpoint cfg P rank h) h.nw h.cs rank h.acyclic choices (sys0 st0) hs.sysInv with
-    hbad | ⟨s1, o1, hok, _, hstarved, _, _, hdeps, _⟩
+    hbad | ⟨s1, o1, hok, _, hstarved, _, _, hdeps, _, _⟩
   · rw [hbad] at hrun; cases hrun
   · rw [hok] at hrun
     cases hrun
@@ -123,7 +123,7 @@ theorem sched_result (h : Hyp cfg rank) (hs : StartOK cfg (den cfg P rank) st0)
     (req : Req) (hreq : ∀ k ∈ req.flat, k ∈ cfg.results) :
     nestedGet s'.st.cache.get? req = nestedGet (fun k => some (den cfg P rank k)) req := by
   rcases mainLoop_spec P (den_fixpoint cfg P rank h) h.nw h.cs rank h.acyclic choices (sys0 st0) hs.sysInv with
-    hbad | ⟨s1, o1, hok, hdone, _, _, _, hdeps, _⟩
+    hbad | ⟨s1, o1, hok, hdone, _, _, _, hdeps, _, _⟩
   · rw [hbad] at hrun; cases hrun
   · rw [hok] at hrun
     cases hrun
